@@ -188,6 +188,45 @@ def project_run(r, named):
     return rec, issues, True
 
 
+def _failing_rerun(r):
+    """map a query without any known gene into the output files of the successful run r"""
+    import os
+    import anndata
+    import warnings
+    from cell_type_mapper.utils.output_utils import hdf5_to_blob
+    d = r['dir']
+    conf = json.load(open(d + '/conf.json')) if os.path.exists(d + '/conf.json') else None
+    if conf is None:
+        conf = build.mapping_config(d, d + '/q.h5ad', d + '/stats.h5', d + '/m.json', r['scn']['cfg'])
+        if r['scn']['cfg'].get('drop') is not None:
+            conf['drop_level'] = taxo.Naming(r['scheme']).level(r['scn']['cfg']['drop'])
+    before = set(os.listdir(d + '/out'))
+    with warnings.catch_warnings():
+        warnings.simplefilter('ignore')
+        a = anndata.read_h5ad(conf['query_path'])
+        a.var.index = [f'zz{i}' for i in range(a.n_vars)]
+        a.write_h5ad(d + '/q_foreign.h5ad')
+    conf['query_path'] = d + '/q_foreign.h5ad'
+    res = build.run_mapping(conf)
+    issues = []
+    if res['ok']:
+        return issues                         # (the run found markers after all: nothing to compare)
+    js = json.load(open(conf['extended_result_path']))
+    try:
+        blob = hdf5_to_blob(conf['hdf5_result_path'])
+    except Exception as e:                    # noqa
+        return [(1502, f'after a failed second run the HDF5 file cannot be read: {type(e).__name__}: {e}')]
+    if bool(js.get('results')) != bool(blob.get('results')):
+        issues.append((1502, f'after a failed second run into the same files the JSON holds {len(js.get("results") or [])} records, '
+                             f'the HDF5 file {len(blob.get("results") or [])}'))
+    if json.dumps(js.get('log')) != json.dumps(blob.get('log')):
+        issues.append((1502, 'after a failed second run the log in the HDF5 file is not the log in the JSON file'))
+    extra = sorted(set(os.listdir(d + '/out')) - before)
+    if extra:
+        issues.append((1502, f'the failed second run left {extra} in the output directory'))
+    return issues
+
+
 def run(ctx):
     quick = ctx.tier == 'quick'
     rng = random.Random(ctx.seed + 15)
@@ -269,6 +308,16 @@ def run(ctx):
                     rec['events'] = [0]
                     recs.append(rec)
                     owners.append(r)
+            # a second run into the SAME output locations that fails (its query shares no gene with the reference): the
+            # three views then describe the failed run - the HDF5 file does not go on showing the results of the first
+            if not named:
+                redo = [r for r in rs if r['ok']][:(4 if quick else 40)]
+                for r in redo:
+                    iss = _failing_rerun(r)
+                    ctx.count({'rerun': r['scn']}, nontrivial=True)
+                    for code, msg in iss:
+                        ctx.report(f'clause:{code}', f'{CL[code]}: {msg}', {'scn': r['scn'], 'scheme': r['scheme'], 'named': named,
+                                                                           'rerun': True})
             import shutil
             for r in rs:
                 shutil.rmtree(r['dir'], ignore_errors=True)
